@@ -118,6 +118,11 @@ fn check_raw<W: WorldDriver>(raw: Raw) -> Result<(), String> {
         (false, None) => {}
         (_, other) => return Err(format!("SelectArchetype::try_from({}u8) gave {:?} (declared: {})", byte, other, decl)),
     }
+    // "fails as documented": a conversion refused because of the archetype id reports
+    // `EcsError::InvalidEntityType` (`InvalidRawEntity` is `from_raw`'s error for malformed raw data)
+    if let Some(m) = W::select_error_variants(byte, raw) {
+        return Err(format!("{}, expected EcsError::InvalidEntityType", m));
+    }
     Ok(())
 }
 
